@@ -143,13 +143,25 @@ class ShuffleContinuumSampler(AbstractContinuumSampler):
         """
         segments = np.array(segments)
         weights = np.array(list(segment.end - segment.start for segment in segments))
+        if self._pivot_type == 'int_pivot':
+            # a whole-number pivot can only be found in a segment that contains one
+            holds_int = np.array([np.ceil(segment.start) <= np.floor(segment.end) for segment in segments])
+            if holds_int.any():
+                weights = weights * holds_int
         weights /= np.sum(weights)
         try:
             segment = np.random.choice(np.array(segments), p=weights)
         except ValueError:
             return 1
         if self._pivot_type == 'int_pivot':
-            return int(np.random.uniform(segment.start, segment.end))
+            pivot = int(np.random.uniform(segment.start, segment.end))
+            # truncation may leave the segment (and enter the zone excluded around another pivot) :
+            # the neighbouring whole number that lies in the segment is taken instead, if there is one
+            if pivot < segment.start and pivot + 1 <= segment.end:
+                pivot += 1
+            elif pivot > segment.end and pivot - 1 >= segment.start:
+                pivot -= 1
+            return pivot
         else:
             return np.random.uniform(segment.start, segment.end)
 
